@@ -3,7 +3,7 @@ soft guards, dist registration, solve_order roles, order-sensitive containers)."
 import ast
 
 from sa.core import rule
-from sa.ir import norm, dotted, call_name, recv_text, walk_local, names_in, calls_in_order, AnalysisError, assigned_targets
+from sa.ir import sig_body, norm, dotted, call_name, recv_text, walk_local, names_in, calls_in_order, AnalysisError, assigned_targets
 from sa.pe import specialise, SpecDom
 from sa.sai import Interp, Domain, FALL
 from sa.cg import callgraph, solve_path
@@ -152,7 +152,7 @@ def rs2(prog, rr):
     # what a RandSet carries (from its constructor): getters for complete contents
     getters = {}
     for name, f in rs.methods.items():
-        b = [x for x in f.node.body if not (isinstance(x, ast.Expr) and isinstance(x.value, ast.Constant))]
+        b = sig_body(f.node)
         if len(b) == 1 and isinstance(b[0], ast.Return) and isinstance(b[0].value, ast.Attribute):
             getters[name] = b[0].value.attr
     addf = prog.method("RandSet", "add_field")
